@@ -8,6 +8,8 @@ CONSTANTS
   AllowCancel = TRUE
   AllowSpurious = TRUE
   FileLayer = TRUE
+  SilentRelease = FALSE
+  ForgetsHandle = FALSE
   MaxLen = 6
 SPECIFICATION GSpec
 INVARIANTS Emit
